@@ -149,6 +149,10 @@ def oracle(ck, extended):
     rt.guard(ck, oracle_fwd_grad, ck, 1, 1, 1, f4, (6,))
     rt.guard(ck, oracle_inv_grad, ck, 1, 1, 1, f4, 8, 3)
     rt.guard(ck, oracle_fwd_grad, ck, 1, 2, 1, f6, (4,))
+    # odd x odd images in periodization (both axes carry a repeated last sample), not a recorded finding
+    rt.guard(ck, oracle_fwd_grad, ck, 2, 2, 1, f4, (5, 7))
+    rt.guard(ck, oracle_fwd_grad, ck, 2, 2, 1, (np.array([1., 2.]), np.array([2., -1.])), (3, 5))
+    rt.guard(ck, oracle_fwd_grad, ck, 1, 2, 2, f4, (9,))
     n = (70 if q else 500) * (3 if extended else 1)
     for it in range(n):
         L = 2 * rng.randint(1, 4 if q else 6); m = rng.choice(gen.MODES5); J = rng.randint(1, 2 if q else 3)    # wavelets have even length
